@@ -170,3 +170,170 @@ func shortExpr(e ast.Expr) string {
 }
 
 var _ = strings.HasPrefix
+
+// ---- R-FIELD-METHOD-CLASH (C26) ----------------------------------------------------------------
+
+// ruleFieldMethodClash: Go rejects a struct type that has a field and a method of the same name.
+// The generator emits methods with fixed names (IsYANGGoStruct, PopulateDefaults, the Validate
+// proxy) and with names derived from sibling fields (Get<F>, GetOrCreate<F>, New<F>, …) on every
+// struct; the field names come from ygen.GoFieldNameMap, which makes them unique among themselves.
+// The structural condition checked: the set of used names that uniquification starts from is not
+// empty — something reserves the method names. (On this tree nothing does: known finding.)
+func ruleFieldMethodClash(c *Ctx, r *Report) {
+	r.Rule("R-FIELD-METHOD-CLASH", "the used-name set from which ygen.GoFieldNameMap makes a struct's field names unique is seeded with the names of the methods the generator emits on that struct; otherwise a YANG name whose CamelCase form is a generated method name (populate-defaults, get-<sibling>, validate) yields a field and a method of the same name and the package does not compile", 1)
+	f := c.MustFunc(r, "ygen", "GoFieldNameMap")
+	if f == nil {
+		return
+	}
+	info := f.Info()
+	calls := CallsIn(info, f.Decl.Body, P("genutil")+".MakeNameUnique")
+	if len(calls) == 0 || len(calls[0].Args) != 2 {
+		r.Und("ygen.GoFieldNameMap:reserved-method-names", c.Pos(f.Decl.Pos()), "no MakeNameUnique call found: the rule does not recognise how field names are made unique")
+		return
+	}
+	set := ObjOf(info, calls[0].Args[1])
+	seeded := false
+	for _, d := range allDefs(f, set) {
+		switch x := ast.Unparen(d).(type) {
+		case *ast.CompositeLit:
+			seeded = seeded || len(x.Elts) > 0
+		case *ast.CallExpr:
+			if id, ok := x.Fun.(*ast.Ident); !ok || id.Name != "make" {
+				seeded = true // built by a helper: assumed to reserve names
+			}
+		}
+	}
+	if rhs, _ := storesOf(f, set); len(rhs) > 0 {
+		seeded = true
+	}
+	r.Check(seeded, "ygen.GoFieldNameMap:reserved-method-names", c.Pos(calls[0].Pos()), "used-name set seeded before the fields are named",
+		"GoFieldNameMap starts from an empty set of used names: field names are unique among themselves only, nothing keeps them apart from the names of the methods generated on the same struct")
+}
+
+// ---- R-TYPE-NAME-GUARD (C26) -------------------------------------------------------------------
+
+// checkedAgainstDirectories: somewhere in f the string variable obj is tested against the names of
+// the generated structs: compared with `<d>.Name` inside a range over a map of *ygen.ParsedDirectory,
+// or used to index a set that such a range fills with `<d>.Name`.
+func checkedAgainstDirectories(c *Ctx, f *FuncInfo, obj types.Object) bool {
+	info := f.Info()
+	isDirMap := func(e ast.Expr) bool {
+		tv, ok := info.Types[e]
+		if !ok || tv.Type == nil {
+			return false
+		}
+		m, ok := tv.Type.Underlying().(*types.Map)
+		return ok && strings.HasSuffix(m.Elem().String(), "ygen.ParsedDirectory")
+	}
+	found := false
+	nameSets := map[types.Object]bool{}
+	ast.Inspect(f.Decl.Body, func(n ast.Node) bool {
+		rs, ok := n.(*ast.RangeStmt)
+		if !ok || !isDirMap(rs.X) || rs.Value == nil {
+			return true
+		}
+		d := ObjOf(info, rs.Value)
+		isDName := func(e ast.Expr) bool {
+			se, ok := ast.Unparen(e).(*ast.SelectorExpr)
+			return ok && se.Sel.Name == "Name" && ObjOf(info, se.X) == d
+		}
+		ast.Inspect(rs.Body, func(m ast.Node) bool {
+			switch x := m.(type) {
+			case *ast.BinaryExpr:
+				if (x.Op == token.EQL || x.Op == token.NEQ) && ((isDName(x.X) && ObjOf(info, x.Y) == obj) || (isDName(x.Y) && ObjOf(info, x.X) == obj)) {
+					found = true
+				}
+			case *ast.AssignStmt:
+				for _, l := range x.Lhs {
+					if ix, ok := ast.Unparen(l).(*ast.IndexExpr); ok && isDName(ix.Index) {
+						if s := ObjOf(info, ix.X); s != nil {
+							nameSets[s] = true
+						}
+					}
+				}
+			}
+			return true
+		})
+		return true
+	})
+	if found {
+		return true
+	}
+	ast.Inspect(f.Decl.Body, func(n ast.Node) bool {
+		ix, ok := n.(*ast.IndexExpr)
+		if ok && nameSets[ObjOf(info, ix.X)] && ObjOf(info, ix.Index) == obj {
+			found = true
+		}
+		return !found
+	})
+	return found
+}
+
+// ruleTypeNameGuard: besides one struct per directory, gogen declares helper types whose names it
+// derives from a struct's name with a fixed suffix (<List>_Key, <List>_OrderedMap). A schema node
+// can have exactly that name (container `key` / `ordered-map` inside the list), so each derived
+// name must be tested against the names of the generated structs before it is used.
+func ruleTypeNameGuard(c *Ctx, r *Report) {
+	r.Rule("R-TYPE-NAME-GUARD", "each helper type name gogen derives from a list's struct name with a fixed suffix (multi-key struct <List>_Key, ordered map <List>_OrderedMap) is tested against the names of the structs generated for schema nodes before use; an untested name is declared twice when the list contains a container of that name, and the package does not compile", 2)
+	type site struct{ fn, suffix, what, node string }
+	for _, st := range []site{
+		{"UnorderedMapTypeName", "_Key", "multi-key-struct", "key"},
+		{"yangListFieldToGoType", "_OrderedMap", "ordered-map", "ordered-map"},
+	} {
+		f := c.MustFunc(r, "gogen", st.fn)
+		if f == nil {
+			continue
+		}
+		info := f.Info()
+		key := "gogen." + st.fn + ":" + st.what + "-name"
+		// the variable first assigned the suffixed name: fmt.Sprintf("%s<suffix>", …) or a call of
+		// a module function that returns such a Sprintf (OrderedMapTypeName).
+		producesSuffix := func(e ast.Expr) bool {
+			call, ok := ast.Unparen(e).(*ast.CallExpr)
+			if !ok {
+				return false
+			}
+			isSprintf := func(inf *types.Info, cl *ast.CallExpr) bool {
+				if FullName(Callee(inf, cl)) != "fmt.Sprintf" || len(cl.Args) == 0 {
+					return false
+				}
+				v, isC := ConstOf(inf, cl.Args[0])
+				return isC && strings.HasSuffix(strings.Trim(v, `"`), st.suffix)
+			}
+			if isSprintf(info, call) {
+				return true
+			}
+			if g := c.funcOfCallee(Callee(info, call)); g != nil && g.Decl.Body != nil {
+				for _, rs := range returnsOf(g.Decl.Body) {
+					for _, res := range rs.Results {
+						if cl, ok := ast.Unparen(res).(*ast.CallExpr); ok && isSprintf(g.Info(), cl) {
+							return true
+						}
+					}
+				}
+			}
+			return false
+		}
+		var nameVar types.Object
+		var at token.Pos
+		ast.Inspect(f.Decl.Body, func(n ast.Node) bool {
+			as, ok := n.(*ast.AssignStmt)
+			if !ok || len(as.Lhs) != len(as.Rhs) || nameVar != nil {
+				return nameVar == nil
+			}
+			for i, rhs := range as.Rhs {
+				if producesSuffix(rhs) {
+					nameVar = ObjOf(info, as.Lhs[i])
+					at = as.Pos()
+				}
+			}
+			return nameVar == nil
+		})
+		if nameVar == nil {
+			r.Und(key, c.Pos(f.Decl.Pos()), "the statement that forms the "+st.suffix+" name was not found")
+			continue
+		}
+		r.Check(checkedAgainstDirectories(c, f, nameVar), key, c.Pos(at), "name tested against the generated structs' names",
+			fmt.Sprintf("%s uses the %s type name %s (…%s) without testing it against the names of the structs generated for schema nodes: a container named %q inside the list gets a struct of the same name and the generated package declares the type twice", st.fn, st.what, nameVar.Name(), st.suffix, st.node))
+	}
+}
